@@ -23,6 +23,7 @@ Proved here (all for arbitrary nesting, arbitrary `Mem`, no size bound):
 -/
 import NetqasmVerif.Lemmas.Sdk
 import NetqasmVerif.Lemmas.SdkWrites
+import NetqasmVerif.Props.EprRegsObligations
 namespace NQ.C14
 open NQ.Sdk
 
@@ -324,5 +325,30 @@ theorem epr_leak_witness :
     heldLen 0 [EprEv.take, .take, .take, .rel 0] = some 2 ∧
     isNoReg (emitEprH Mem.init [] ((List.replicate 8 [EprEv.take, .take, .take, .rel 0]).flatten ++ [.take])) = true := by
   decide +kernel
+
+/-- every EPR API form of the generated table (create/recv × keep plain / post routine / sequential /
+with_info / rsp / measure / context block × expect_phi_plus × min_fidelity_all_at_end × number 1..3 ×
+generic / NV / NV-compiler) is a completed operation that needs at most 10 registers -/
+theorem epr_forms_completed : ∀ f ∈ Gen.eprForms, Completed (Host.epr f.2) ∧ need (Host.epr f.2) ≤ 10 := by
+  intro f hf
+  have h1 := List.all_eq_true.mp EprRegs.eprForms_balanced f hf
+  have h2 := List.all_eq_true.mp EprRegs.eprForms_peak f hf
+  exact ⟨by simpa [Completed] using h1, by simpa [need] using h2⟩
+
+/-- **EPR operations in `sequence_compiles`.** Any program — any length, flushes anywhere — whose
+operations are EPR operations of the table or other completed operations needing at most the free
+registers never runs out of registers, provided 10 registers are free. -/
+theorem epr_sequence_compiles (p : List Top) (m : Mem) (pend : List PCmd) (step : Nat) (acc : RunOut)
+    (hfree : 10 ≤ free m.active)
+    (hops : ∀ op, Top.op op ∈ p →
+      (∃ f ∈ Gen.eprForms, op = Host.epr f.2) ∨ (Completed op ∧ need op ≤ free m.active))
+    (hacc : ∀ st, acc.err ≠ some (st, .noRegister)) :
+    ∀ st, (runProg m pend step acc p).err ≠ some (st, .noRegister) := by
+  refine sequence_compiles p m pend step acc (by omega) ?_ hacc
+  intro op hmem
+  rcases hops op hmem with ⟨f, hf, rfl⟩ | ⟨hc, hn⟩
+  · have := epr_forms_completed f hf
+    exact ⟨this.1, fun m' hm' => compiles_of_need _ m' this.1 (by rw [hm']; omega)⟩
+  · exact ⟨hc, fun m' hm' => compiles_of_need _ m' hc (by rw [hm']; exact hn)⟩
 
 end NQ.C14
